@@ -123,6 +123,9 @@ func init() {
 			n := pick(tier, 1641, 65641)
 			js := chunk("exh", "prod", n, pick(tier, 110, 4200), Job{Timeout: 30 * time.Minute})
 			js = append(js, chunk("rand", "prod", pick(tier, 8000, 300000), pick(tier, 500, 19000), Job{Timeout: 30 * time.Minute})...)
+			// under go test the text formats append the details of an error that carries a stack trace to the record: the
+			// same routing rules
+			js = append(js, chunk("rand", "test", pick(tier, 1500, 60000), pick(tier, 500, 10000), Job{Timeout: 30 * time.Minute})...)
 			return js
 		},
 	})
